@@ -68,23 +68,26 @@ def isControl (cmd : Nat) : Bool :=
   cmd == Generated.CMD_ROUTES || cmd == Generated.CMD_HOST_REQ || cmd == Generated.CMD_HOST_LIST ||
   cmd == Generated.CMD_DNS_REQ || cmd == Generated.CMD_UDP_OPEN || cmd == Generated.CMD_EXIT
 
+def handlerAt (e : End) (f : Flow) : Option ProxyS :=
+  match e with | .client => f.c | .server => f.s
+
+def setHandler (e : End) (f : Flow) (p : ProxyS) : Flow :=
+  match e with | .client => { f with c := some p } | .server => { f with s := some p }
+
 /-- Dispatch of a data-type frame to the registered wrapper of its channel at one end. -/
 def dispatch (e : End) (flows : List Flow) (fr : Frame) : List Flow × Bool :=
   -- returns the new flows and whether the wrapper raised ('unknown command')
   match flows with
   | [] => ([], false)
   | f :: rest =>
-    let h := match e with | .client => f.c | .server => f.s
-    match h with
+    match handlerAt e f with
     | some p =>
       if f.chan == fr.chan && p.mw.registered then
         match p.mw.gotPacket fr.cmd fr.data with
-        | .ok w' =>
-          let p' := { p with mw := w' }
-          ((match e with | .client => { f with c := some p' } | .server => { f with s := some p' }) :: rest, false)
+        | .ok w' => (setHandler e f { p with mw := w' } :: rest, false)
         | .died => (f :: rest, true)
-      else let r := dispatch e rest fr; (f :: r.1, r.2)
-    | none => let r := dispatch e rest fr; (f :: r.1, r.2)
+      else ((f :: (dispatch e rest fr).1), (dispatch e rest fr).2)
+    | none => ((f :: (dispatch e rest fr).1), (dispatch e rest fr).2)
 
 def World.step (w : World) (st : Step) : World :=
   if w.died.isSome then w else
